@@ -3,6 +3,7 @@ package c07
 import (
 	"context"
 	"fmt"
+	"runtime"
 	"sync"
 	"testing"
 	"testing/synctest"
@@ -260,5 +261,63 @@ func TestVerif_NextInCommitWindow(t *testing.T) {
 		}
 	}
 	r.Sample(map[string]any{"points": pts, "rounds": rounds})
+	r.Finish()
+}
+
+// Overlapping iterators on one table are independent whatever the runtime did between their creations. One long-lived iterator is
+// created right after a cycle of the Go collector; every round then inserts an object, lets the collector run, creates a second
+// iterator through the very same code path (so that the runtime tends to hand out the same addresses again), closes it and deletes
+// the object: the long-lived iterator must be handed that deletion. Whatever the library uses to tell trackers apart must not be
+// something the runtime can hand out again while the first iterator is alive.
+func TestVerif_IteratorIdentity(t *testing.T) {
+	r := vkit.Start(t, "C07", "iterator-identity", "exploration", "a long-lived iterator A created after runtime.GC(); rounds of: insert an object, A drains, runtime.GC(), a short-lived iterator B on the same table created through the same code path and closed, the object deleted: A must deliver exactly that deletion; several tables in sequence; non-trivial = the round ran; distinct = (table, round)")
+	r.Require("identity_rounds")
+	tablesN := vkit.N(4, 100)
+	rounds := 100
+	db := statedb.New()
+	for ti := 0; ti < tablesN && r.Violations() < 3; ti++ {
+		tb := concw.NewTables(db, fmt.Sprintf("ii%d-", ti), 1)[0]
+		newIter := func() statedb.ChangeIterator[*concw.Row] {
+			w := db.WriteTxn(tb)
+			it, err := tb.Changes(w)
+			if err != nil {
+				t.Fatal(err)
+			}
+			w.Commit()
+			return it
+		}
+		drain := func(it statedb.ChangeIterator[*concw.Row]) (deleted []string) {
+			for k := 0; k < 3; k++ {
+				seq, _ := it.Next(db.ReadTxn())
+				for ch := range seq {
+					if ch.Deleted {
+						deleted = append(deleted, ch.Object.ID)
+					}
+				}
+			}
+			return
+		}
+		runtime.GC()
+		a := newIter()
+		for round := 0; round < rounds && r.Violations() < 3; round++ {
+			id := fmt.Sprint(round)
+			w := db.WriteTxn(tb)
+			tb.Insert(w, &concw.Row{ID: id, V: 1})
+			w.Commit()
+			drain(a)
+			runtime.GC()
+			b := newIter()
+			b.Close()
+			w = db.WriteTxn(tb)
+			tb.Delete(w, &concw.Row{ID: id})
+			w.Commit()
+			if got := drain(a); len(got) != 1 || got[0] != id {
+				r.Violation("changes/deletion-not-delivered", ti*rounds+round, map[string]any{"message": fmt.Sprintf("table %d round %d: after a second iterator on the table was created (a collector cycle after the first) and closed, the first one was handed the deletions %v for the deletion of object %s", ti, round, got, id)})
+			}
+			r.Count("identity_rounds", 1)
+			r.Case(uint64(ti*rounds+round), true)
+		}
+		a.Close()
+	}
 	r.Finish()
 }
